@@ -70,13 +70,15 @@ class _Lexer:
         self.paren_count = 0
 
 
-def p_error_any(has_tok: bool, value: str, tl: int, ll: int) -> None:
+def p_error_any(has_tok: bool, value: str, tl: int, ll: int, number: bool) -> None:
     """
     pre: len(value) <= 3 and 1 <= tl <= 50 and 1 <= ll <= 50
     post: True
     """
     hlib.enter(locals())
-    tok = _Tok('NAME', value, tl, _Lexer(ll)) if has_tok else None
+    from smartquery.custom_types import Decimal
+    # token values are strings for every token type except NUMBER (a Decimal)
+    tok = (_Tok('NUMBER', Decimal('12.5'), tl, _Lexer(ll)) if number else _Tok('NAME', value, tl, _Lexer(ll))) if has_tok else None
     raised = None
     try:
         rules.p_error(tok)
